@@ -139,6 +139,7 @@ class BinaryOutputStream(OutputStream):
                 section.add_data(bytes([0]))
             if item.align > self.current_section.alignment:
                 self.current_section.alignment = item.align
+            section.aligned_points.append((section.size, item.align))
         elif isinstance(item, DebugData):
             # We have debug data here!
             self.emit_debug(item.data)
